@@ -35,7 +35,10 @@ RULE = ("valid streams of 0-4 chunks (an empty chunk included) x one fault: inva
         "table, create} x count dtype, verdict decided by the value of the record as written; missing ids (float NaN, Int64 pd.NA: regression inputs of repaired D36), "
         "an infinite id and a missing id / count column through every API x {DataFrame, dict}; every run under one combination of the optional creation arguments "
         "{metadata none / {} / dict / list} x {assembly} x {h5opts} x {extra value column} x {dtypes} (+ max_merge for unordered), rotating through the "
-        "full cross (thorough: full cross on representative faults); merge_coolers and coarsen_cooler with a corrupted input as producers; "
+        "full cross (thorough: full cross on representative faults); merge_coolers and coarsen_cooler with a corrupted input as producers; zoomify_cooler and `cooler zoomify` as producers: "
+        "1-3 base coolers, an invalid stored record (lower-triangle pixel of a symmetric-upper base, out-of-range id written raw, duplicate) in the "
+        "first / second / third base, nested and non-nested resolution lists, chunk sizes 1/2/7/1000 (expected verdict computed from the coarse "
+        "coordinates the record is mapped to); "
         "distinct by case hash")
 TRUSTED = ["h5py/HDF5 group and attribute semantics are observed (SHA of attrs+datasets per tracked group), modelled only as path -> {format, content id}"]
 ASSUMPTIONS = ["faults are Python exceptions at chunk boundaries (validator, iterator, range check), as the property states"]
@@ -623,6 +626,190 @@ def gen_cases(ctx):
     return cases
 
 
+# ----------------------------------------------------------------------------- zoomify_cooler / `cooler zoomify` as a producer
+ZLEN = 24000          # one chromosome, so that the coarse bin of base bin i under factor k is i // k
+
+
+def zbins(res):
+    import pandas as pd
+    starts = list(range(0, ZLEN, res))
+    return pd.DataFrame({"chrom": ["chrZ"] * len(starts), "start": starts, "end": [min(s_ + res, ZLEN) for s_ in starts]})
+
+
+def zbase_pixels(res, invalid):
+    """stored records of one base cooler: a valid upper-triangular table plus, optionally, one invalid stored record"""
+    n = -(-ZLEN // res)
+    keys = sorted({(i, j) for i in range(n) for j in (i, i + 2) if j < n})[:10]
+    recs = [[i, j, 1 + (3 * i + j) % 7] for (i, j) in keys]
+    if invalid and invalid["kind"] in ("tril", "dup"):
+        recs.append([invalid["pixel"][0], invalid["pixel"][1], 5])
+        recs.sort(key=lambda r: (r[0], r[1]))
+    return n, recs
+
+
+def zoom_expected(case):
+    """independent reading of what zoomify must do: levels in increasing order, each from the largest smaller level dividing it;
+    a derived level whose stream would hold a lower-triangle or out-of-range record must be refused and must not become a cooler"""
+    bases = {b["res"]: b for b in case["bases"]}
+    alls = sorted(set(bases) | set(case["resolutions"]))
+    keys = {}
+    for r, b in bases.items():
+        n, recs = zbase_pixels(r, b.get("invalid"))
+        ks = [(x[0], x[1]) for x in recs]
+        if b.get("invalid") and b["invalid"]["kind"] == "oob":
+            ks[-1] = (ks[-1][0], 10 * n + 1)
+        keys[r] = ks
+    status = {r: "cooler" for r in bases}
+    nnz = {r: len(keys[r]) for r in bases}
+    failed = None
+    for r in alls:
+        if r in bases:
+            continue
+        if failed is not None:
+            status[r] = "absent"
+            continue
+        pred = max(q for q in alls if q < r and r % q == 0)
+        m = r // pred
+        n_r = -(-ZLEN // r)
+        ks = sorted({(a // m, b_ // m) for (a, b_) in keys[pred]})
+        if any(a > b_ or a >= n_r or b_ >= n_r or a < 0 for (a, b_) in ks):
+            failed = r
+            status[r] = "partial"
+            continue
+        keys[r] = ks
+        status[r] = "cooler"
+        nnz[r] = len(ks)
+    return {"refused": failed is not None, "fail_level": failed, "status": status, "nnz": nnz, "levels": alls}
+
+
+def zoom_impl(case, workdir):
+    import cooler
+    import h5py
+    from cooler import fileops
+    for fn in os.listdir(workdir):
+        os.remove(workdir / fn)
+    uris = []
+    for b in case["bases"]:
+        n, recs = zbase_pixels(b["res"], b.get("invalid"))
+        fn = str(workdir / f"base_{b['res']}.cool")
+        px = {"bin1_id": np.array([r[0] for r in recs]), "bin2_id": np.array([r[1] for r in recs]), "count": np.array([r[2] for r in recs])}
+        cooler.create_cooler(fn, zbins(b["res"]), px, triucheck=False, dupcheck=False)
+        if b.get("invalid") and b["invalid"]["kind"] == "oob":
+            with h5py.File(fn, "r+") as f:                # an out-of-range id can only get into a cooler raw
+                f["pixels/bin2_id"][len(recs) - 1] = 10 * n + 1
+        uris.append(fn)
+    out = str(workdir / "z.mcool")
+    if case["api"] == "cli":
+        from click.testing import CliRunner
+        from cooler.cli import cli
+
+        def fn_():
+            res = CliRunner().invoke(cli, ["zoomify", "-r", ",".join(str(r) for r in case["resolutions"]), "-c", str(case["chunksize"]), "-o", out, uris[0]])
+            if res.exit_code != 0:
+                raise (res.exception if isinstance(res.exception, Exception) else RuntimeError(f"exit code {res.exit_code}"))
+    else:
+        def fn_():
+            cooler.zoomify_cooler(uris if len(uris) > 1 else uris[0], out, case["resolutions"], case["chunksize"])
+    st, msg = G.guarded(fn_, 120)
+    exp = zoom_expected(case)
+    obs = {}
+    listing = []
+    if os.path.exists(out):
+        st2, val = G.guarded(lambda: fileops.list_coolers(out), 30)
+        listing = val if st2 == "ok" else ["<list_coolers raised " + st2 + ">"]
+        with h5py.File(out, "r") as f:
+            exists = {r: f"resolutions/{r}" in f for r in exp["levels"]}
+        for r in exp["levels"]:
+            st3, isc = G.guarded(lambda: bool(fileops.is_cooler(out + f"::/resolutions/{r}")), 30)
+            nz = None
+            if st3 == "ok" and isc:
+                st4, nz = G.guarded(lambda: int(cooler.Cooler(out + f"::/resolutions/{r}").info["nnz"]), 30)
+            obs[str(r)] = [bool(exists[r]), isc if st3 == "ok" else "<is_cooler raised>", f"/resolutions/{r}" in listing, nz]
+    else:
+        obs = {str(r): [False, False, False, None] for r in exp["levels"]}
+    return {"result": "ok" if st == "ok" else st, "levels": obs, "listing": listing}
+
+
+def zoom_oracle(case, out):
+    exp = zoom_expected(case)
+    bad = []
+    if exp["refused"] and out["result"] == "ok":
+        bad.append(("an invalid stored record reached a coarser level without an error", "error", "ok"))
+    if not exp["refused"] and out["result"] != "ok":
+        bad.append(("valid bases were refused", "ok", out["result"]))
+    for r in exp["levels"]:
+        ex, isc, listed, nz = out["levels"][str(r)]
+        want = exp["status"][r]
+        if want == "cooler":
+            if isc is not True or not listed:
+                bad.append((f"level {r} should be a recognised, listed cooler", True, [isc, listed]))
+            elif nz != exp["nnz"][r]:
+                bad.append((f"level {r}: number of pixels", exp["nnz"][r], nz))
+        elif isc is not False or listed:
+            bad.append((f"level {r} ({'being written when creation stopped' if want == 'partial' else 'never reached'}) recognised or listed", False, [isc, listed]))
+    return bad
+
+
+def zoom_model_expr(case):
+    exp = zoom_expected(case)
+    bases = {b["res"] for b in case["bases"]}
+    idx = {r: i for i, r in enumerate(exp["levels"])}
+    ents = ["([], {| g_format := false; g_content := 1 |})", "([50], {| g_format := false; g_content := 2 |})"]
+    ents += [f"([50; {idx[r]}], {{| g_format := true; g_content := {10 + idx[r]} |}})" for r in sorted(bases)]
+    val = f"(validate_pixels (V:=list Z) 4 true true true false)"
+    expr = "b"
+    for r in exp["levels"]:
+        if r in bases or exp["status"][r] == "absent":
+            continue
+        items = "[Some []]" if exp["status"][r] == "cooler" else "[None]"
+        expr = f"(fst (create_machine ModeA [50; {idx[r]}] {val} (fun _ => true) {items} {expr}))"
+    paths = C.lst([f"[50; {idx[r]}]" for r in exp["levels"]])
+    return f"(let b := {C.lst(ents)} in let f := {expr} in (map (obs_path b f) {paths}, list_coolers f))"
+
+
+def zoom_cases(ctx):
+    thorough = ctx.tier == "thorough"
+    T = lambda px: {"kind": "tril", "pixel": px}     # noqa: E731
+    fams = [
+        ([{"res": 1000}], [1000, 2000, 4000]),                                                        # control, nested
+        ([{"res": 1000}], [1000, 2000, 3000, 6000]),                                                  # control, non-nested
+        ([{"res": 1000, "invalid": T([3, 2])}], [1000, 2000, 3000]),                                  # same base read again with factor 3
+        ([{"res": 1000, "invalid": T([3, 2])}], [1000, 2000, 4000]),                                  # (3,2) -> (1,1): stays valid
+        ([{"res": 1000, "invalid": T([3, 1])}], [1000, 2000, 4000]),                                  # refused at the first derived level
+        ([{"res": 1000}, {"res": 5000, "invalid": T([2, 1])}], [1000, 2000, 5000, 10000]),            # invalid record in the SECOND base
+        ([{"res": 1000, "invalid": T([5, 4])}, {"res": 4000}], [1000, 2000, 4000, 8000, 3000]),       # first base, hit by factor 3 only
+        ([{"res": 1000}, {"res": 3000}, {"res": 5000, "invalid": T([4, 3])}], [1000, 2000, 3000, 6000, 5000, 10000]),   # third base
+        ([{"res": 1000}, {"res": 3000, "invalid": {"kind": "oob"}}], [1000, 2000, 3000, 6000]),       # out-of-range id, second base
+        ([{"res": 2000, "invalid": {"kind": "oob"}}], [2000, 4000]),
+        ([{"res": 1000}, {"res": 5000, "invalid": {"kind": "dup", "pixel": [1, 1]}}], [1000, 2000, 5000, 10000]),   # duplicates add up
+        ([{"res": 1000}, {"res": 3000}, {"res": 5000}], [1000, 2000, 3000, 6000, 5000, 10000]),       # control, three bases
+    ]
+    cases = []
+    k = 0
+    for bases, res in fams:
+        for cs in ((1, 2, 7, 1000) if thorough else ((1, 2, 1000)[k % 3], (7, 1000, 1)[k % 3])):
+            k += 1
+            cases.append({"grp": "zoomify", "bases": bases, "resolutions": res, "chunksize": cs, "api": "py"})
+            if len(bases) == 1 and (thorough or k % 2):
+                cases.append({"grp": "zoomify", "bases": bases, "resolutions": res, "chunksize": cs, "api": "cli"})
+    return cases
+
+
+def run_zoomify(ctx, work):
+    cases = zoom_cases(ctx)
+    outs = run_parallel([("zoom", c, None, str(work)) for c in cases])
+    model = C.coq_eval("From Cooler Require Import Model.Create.", [zoom_model_expr(c) for c in cases], tmpdir=ctx.tmp / "zmodel")
+    for c, o, (obs_m, list_m) in zip(cases, outs, model):
+        exp = zoom_expected(c)
+        ctx.case(c, nontrivial=True, kind=f"zoomify:{c['api']}:{'refused' if exp['refused'] else 'accepted'}")
+        ctx.compare("zoomify completed", c, o["result"] == "ok", not exp["refused"])
+        ctx.compare("zoom levels (exists, is_cooler)", c, [o["levels"][str(r)][:2] for r in exp["levels"]], [[om[0], om[1]] for om in obs_m])
+        bad = zoom_oracle(c, o)
+        if bad:
+            ctx.fail(c, {"violations": [[str(x)[:300] for x in b_] for b_ in bad[:4]]}, None)
+    return len(cases)
+
+
 def special_cases(ctx):
     # a missing bin id (float NaN, Int64 pd.NA) compares false with every bound: defect D36, repaired; its inputs stay here as
     # an ordinary invalid-input family (regression corpus) judged by the hard oracle
@@ -647,6 +834,26 @@ def special_cases(ctx):
     return out
 
 
+def _worker(args):
+    kind, case, tpl, base = args
+    from pathlib import Path
+    wd = Path(base) / f"p{os.getpid()}"                   # one scratch directory (and one before-state cache) per worker process
+    wd.mkdir(exist_ok=True)
+    return zoom_impl(case, wd) if kind == "zoom" else impl_run(case, tpl, wd)
+
+
+def run_parallel(jobs):
+    """implementation side of independent runs in 4 worker processes (results in order); sequential fallback"""
+    import multiprocessing as mp
+    if os.environ.get("VERIF_SERIAL") != "1":
+        try:
+            with mp.get_context("fork").Pool(4) as pool:
+                return list(pool.imap(_worker, jobs, chunksize=8))
+        except Exception as e:  # noqa: BLE001
+            print("note: worker pool unavailable (%s), running sequentially" % type(e).__name__)
+    return [_worker(j) for j in jobs]
+
+
 def run(ctx):
     d = ctx.tmp / "c13"
     d.mkdir(exist_ok=True)
@@ -656,13 +863,14 @@ def run(ctx):
     work.mkdir(exist_ok=True)
     cases = gen_cases(ctx)
     # inputs without an integer value (NaN / inf ids, a missing column): no model literal exists; the property oracle decides
-    for c in special_cases(ctx):
-        o = impl_run(c, tpl, work)
+    sc = special_cases(ctx)
+    for c, o in zip(sc, run_parallel([("run", c, tpl, str(work)) for c in sc])):
         ctx.case(c, nontrivial=True, kind=f"special:{c['special']}")
         bad = oracle(c, o)
         if bad:
             ctx.fail(c, {"violations": [[str(x)[:300] for x in b_] for b_ in bad[:4]]}, None)
-    outs = [impl_run(c, tpl, work) for c in cases]
+    nzoom = run_zoomify(ctx, work)
+    outs = run_parallel([("run", c, tpl, str(work)) for c in cases])
     exprs = [model_expr(c) for c in cases]
     model = C.coq_eval("From Cooler Require Import Model.Create.", exprs, tmpdir=ctx.tmp / "model", shard=120, jobs=4)
     opens_failed = 0
@@ -672,7 +880,7 @@ def run(ctx):
         if o["result"] != "ok" and o["cooler_opens"]:
             opens_failed += 1
         leftovers += bool(o["leftovers"])
-    ctx.extra["scopes"] = {"runs": len(cases), "faults": len(gen_faults()), "targets": len(TARGETS),
+    ctx.extra["scopes"] = {"runs": len(cases), "zoomify_runs": nzoom, "faults": len(gen_faults()), "targets": len(TARGETS),
                            "failed_runs_where_Cooler(uri)_still_constructs": opens_failed,
                            "runs_leaving_temporary_files_next_to_the_destination": leftovers,
                            "note": "Cooler(uri) does not test the format attribute; it constructs on any group that has a chroms table (recorded, not part of the oracle)"}
@@ -682,6 +890,14 @@ def run(ctx):
 def replay(ctx, case):
     d = ctx.tmp / "c13"
     d.mkdir(exist_ok=True)
+    if case.get("grp") == "zoomify":
+        work = d / "work"
+        work.mkdir(exist_ok=True)
+        bad = zoom_oracle(case, zoom_impl(case, work))
+        for b_ in bad:
+            print("violation:", b_)
+        shutil.rmtree(ctx.tmp, ignore_errors=True)
+        return not bad
     tpl = build_templates(d)
     _BEFORE.clear()
     work = d / "work"
